@@ -1004,6 +1004,11 @@ func (u *Unit) execReturn(st *State, x *ssa.Return) {
 		st.assume(g)
 	}
 	for _, e := range c.Ensures {
+		if hasTag(e.Tags, "assumed") {
+			// a clause of an otherwise verified contract that is taken on trust (listed in the evidence)
+			u.usedExternal["assumed clause of "+u.key+" (not proved against its body): "+e.Text] = true
+			continue
+		}
 		ctx := mkctx()
 		g := ctx.eval(e.Expr)
 		s2 := st
@@ -1281,6 +1286,15 @@ func nilGuarded(fn *ssa.Function) bool {
 			return false
 		default:
 			return false
+		}
+	}
+	return false
+}
+
+func hasTag(tags []string, t string) bool {
+	for _, x := range tags {
+		if x == t {
+			return true
 		}
 	}
 	return false
